@@ -109,15 +109,21 @@ def _in_loop_handlers(tree):
 
 
 class Transformer:
-    def __init__(self, rng):
+    def __init__(self, rng, extra_exprs=()):
         self.r = rng
         self.k = 0
+        self.extra = list(extra_exprs)
 
     def fresh(self, p="v"):
         self.k += 1
         return f"{p}{self.k}_"
 
     def pool(self):
+        if self.extra and self.r.random() < 0.35:       # literals of changed lines (harness/diffhints.py): empty on the recorded tree
+            try:
+                return _e(self.r.choice(self.extra))
+            except SyntaxError:
+                pass
         return _e(self.r.choice(EXPR_POOL))
 
     # each t_* returns a label or None (not applicable)
@@ -641,7 +647,8 @@ def corpus(rng, n, repo, want=None):
     if want:
         sd = [s for s in sd if want(s[1])] or sd
     out, tries = [], 0
-    tr = Transformer(rng)
+    import diffhints
+    tr = Transformer(rng, diffhints.expr_sources(repo))
     kinds = tr.kinds()
     while len(out) < n and tries < n * 4:
         tries += 1
@@ -681,7 +688,8 @@ def arg_sweep(repo, kinds=None):
     -> list of (source, seed name, [label]) in a deterministic order.  `kinds`: restrict to these AST node kinds of the substituted value."""
     out, seen = [], set()
     reps = []
-    for kind in SWEEP_KINDS:
+    import diffhints
+    for kind in SWEEP_KINDS + diffhints.expr_sources(repo)[:12]:
         v = _e(kind[1:]) if kind.startswith("*") else _e(kind)
         nm = "Starred" if kind.startswith("*") else type(v).__name__
         if kinds is None or nm in kinds:
